@@ -33,10 +33,14 @@ def main():
     mod = importlib.import_module("impl_" + prop.lower())
     signal.signal(signal.SIGALRM, _alarm)
     obs = []
+    import implutil
     for case in payload["cases"]:
         signal.setitimer(signal.ITIMER_REAL, float(payload.get("case_timeout", 10)))
+        implutil.ADV = case.get("adv")
+        del implutil.SPECLOG[:]
+        rmod = mod if "family" not in case else importlib.import_module("impl_" + case["family"].lower())
         try:
-            o = mod.run_case(case)
+            o = rmod.run_case(case)
         except CaseTimeout:
             o = {"timeout": True}
         except RecursionError:
@@ -45,6 +49,8 @@ def main():
             o = {"crash": "%s: %s" % (type(e).__name__, str(e)[:200])}
         finally:
             signal.setitimer(signal.ITIMER_REAL, 0)
+        if case.get("adv") is not None and isinstance(o, dict):
+            o["speclog"] = list(implutil.SPECLOG[:20])
         obs.append(o)
     with open(fout, "w") as fh:
         json.dump({"obs": obs}, fh)
